@@ -21,8 +21,9 @@
 
    monitor (the verdict): rebuilds the history from the observable events and evaluates the
             clauses of ParamProtoProps; the first failing clause is kept in bad/badAt.
-   conform (the binding): every step must be an enabled action of ParamProto (constant Bug
-            selects the variant of the one-shot matching the code has), and before every step
+   conform (the binding): every step must be an enabled action of ParamProto (constant Bug:
+            "none" = the repaired code, "cmdOnly"/"cmdId" = pre-fix trees; the harness detects which
+            one the tree under test implements), and before every step
             the history the design spec computed must equal the recorded one.                 *)
 EXTENDS Naturals, Sequences, FiniteSets, TLC, Json, IOUtils
 
@@ -33,8 +34,8 @@ Traces == JsonDeserialize(IOEnv.TRACE_FILE)
 VARIABLES tid, l,
           mcalls, missued, mwire, mdown, mrxs, mgots, bad, badAt,       \* monitor
           conf, confAt,                                                 \* conformance verdict
-          cf, ust, ucur, oneShots, reqQ, upc, cur, waitLock, lockPat, lockRid, devq, dval, dstored, inq,
-          dpc, snap, dpk, drid, cache, nextRid, nnotif, calls, issued, wire, down, rxs, gots   \* design spec
+          cf, ust, ucur, oneShots, reqQ, upc, cur, waitLock, lockPat, replyCb, dcb, devq, dval, dstored, inq,
+          dpc, snap, dpk, cache, nextRid, nnotif, calls, issued, wire, down, rxs, gots   \* design spec
 
 T == Traces[tid]
 Ev == T.ev[l]
@@ -49,8 +50,8 @@ OneQueryPerCmd == FALSE
 D == INSTANCE ParamProto
 P == INSTANCE ParamProtoProps
 
-specvars == <<cf, ust, ucur, oneShots, reqQ, upc, cur, waitLock, lockPat, lockRid, devq, dval, dstored, inq,
-              dpc, snap, dpk, drid, cache, nextRid, nnotif, calls, issued, wire, down, rxs, gots>>
+specvars == <<cf, ust, ucur, oneShots, reqQ, upc, cur, waitLock, lockPat, replyCb, dcb, devq, dval, dstored, inq,
+              dpc, snap, dpk, cache, nextRid, nnotif, calls, issued, wire, down, rxs, gots>>
 monvars == <<mcalls, missued, mwire, mdown, mrxs, mgots>>
 
 Init == /\ tid \in 1..Len(Traces)
@@ -61,10 +62,10 @@ Init == /\ tid \in 1..Len(Traces)
         /\ cf = Traces[tid].cfg
         /\ ust = [u \in Users |-> "idle"] /\ ucur = [u \in Users |-> D!NoReq]
         /\ oneShots = <<>> /\ reqQ = <<>>
-        /\ upc = "get" /\ cur = D!NoReq /\ waitLock = FALSE /\ lockPat = <<>> /\ lockRid = 0
+        /\ upc = "get" /\ cur = D!NoReq /\ waitLock = FALSE /\ lockPat = <<>> /\ replyCb = D!NoCb /\ dcb = D!NoCb
         /\ devq = <<>> /\ dval = Traces[tid].cfg.init /\ dstored = Traces[tid].cfg.stored0
         /\ inq = <<>>
-        /\ dpc = "recv" /\ snap = <<>> /\ dpk = [chan |-> 0, data |-> <<>>] /\ drid = 0
+        /\ dpc = "recv" /\ snap = <<>> /\ dpk = [chan |-> 0, data |-> <<>>]
         /\ cache = Traces[tid].cfg.init
         /\ nextRid = 1 /\ nnotif = 0
         /\ calls = <<>> /\ issued = <<>> /\ wire = <<>> /\ down = <<>> /\ rxs = <<>> /\ gots = <<>>
